@@ -64,6 +64,8 @@ def lake_build(targets):
 def build_harness():
     sh([sys.executable, os.path.join(V, 'tools', 'gen_harness.py')], check=True)
     p = sh(['cargo', 'build', '--offline', '--target-dir', os.path.join(CACHE, 'harness')], cwd=os.path.join(V, 'harness'))
+    if p.returncode != 0 and os.path.exists(HARNESS_BIN):
+        os.unlink(HARNESS_BIN)          # never answer from a binary built from another tree
     return p.returncode == 0, p.stdout + p.stderr
 
 
@@ -169,6 +171,8 @@ def run_model(lines, timeout=600):
 def run_harness(lines, timeout=900, env=None, stdin_data=None):
     """Returns list of (answer, extra_lines_printed_before_it).  A harness process that dies or hangs on a
     request (abort, allocation failure, watchdog) is restarted for the remaining requests."""
+    if not os.path.exists(HARNESS_BIN):
+        return [('HARNESS-UNAVAILABLE', [])] * len(lines)
     res = []
     todo = list(lines)
     restarts = 0
